@@ -171,6 +171,13 @@ func runProc(bin, prop, tier string, shard, nshards int, outDir string, budget t
 		"VERIF_TIER="+tier, "VERIF_SEED="+strconv.FormatInt(seed(), 10),
 		"VERIF_SHARD="+strconv.Itoa(shard), "VERIF_NSHARDS="+strconv.Itoa(nshards),
 		"VERIF_OUT="+outDir, "VERIF_ROOT="+root)
+	// scratch files of the test process (worker stderr captures, …) live under the shard's output
+	// directory, which the driver owns, not under /tmp
+	tmp := filepath.Join(outDir, fmt.Sprintf("tmp-%03d", shard))
+	if os.MkdirAll(tmp, 0o755) == nil {
+		cmd.Env = append(cmd.Env, "TMPDIR="+tmp)
+		defer os.RemoveAll(tmp)
+	}
 	if cfg.Race {
 		cmd.Env = append(cmd.Env, "GORACE=halt_on_error=1 exitcode=66")
 	}
